@@ -84,6 +84,7 @@ def gen_sources(rng, n, eos_rate=0.15, dirs=True, big_rate=0.0):
     """list of source items: {'arg':..,'content':..} or {'eos': '--eos'}; names distinct per side"""
     out = []
     used = set()
+    paths = set()
     for _ in range(n):
         if rng.random() < eos_rate:
             out.append({"eos": rng.choice(["--eos", "--EOS", "--Eos"])})
@@ -92,8 +93,17 @@ def gen_sources(rng, n, eos_rate=0.15, dirs=True, big_rate=0.0):
         size = None
         if rng.random() < big_rate:
             size = rng.choice([FULL - 2040, FULL - 1, FULL, FULL + 1, FULL + 2040, 330000, 100000, 200000])
-        d = rng.choice(["", "", "", "s+/", "d+.x/", "./", "a+.b/"]) if dirs else ""
-        out.append({"arg": d + gen_dname(rng, used, auto_bat=True), "content": gen_dcontent(rng, size)})
+        for _try in range(50):
+            d = rng.choice(["", "", "", "s+/", "d+.x/", "./", "a+.b/"]) if dirs else ""
+            arg = d + gen_dname(rng, used, auto_bat=True)
+            # one host file per source argument, over the whole list: x.bas on one side and x.bas,a on another would be one file with two contents
+            hp = os.path.normpath(arg[:-2] if arg[-2:].upper() == ",A" else arg)
+            if hp not in paths:
+                paths.add(hp)
+                break
+        else:
+            raise RuntimeError("host paths exhausted")
+        out.append({"arg": arg, "content": gen_dcontent(rng, size)})
     return out
 
 
